@@ -3,6 +3,7 @@
 HARNESSES = [
     dict(name="c03", kind="sched", srcs=["harness/c03/c03_doall.cpp"]),
     dict(name="c04", kind="sched", srcs=["harness/c04/c04_term.cpp"]),
+    dict(name="c06", kind="schedn", srcs=["harness/c06/c06_locks.cpp"]),
     dict(name="c05", kind="sched", srcs=["harness/c05/c05_barrier.cpp"]),
     dict(name="c16", kind="native", srcs=["harness/c16/c16_pstl.cpp"]),
     dict(name="c16e1", kind="sched", srcs=["harness/c16/c16_pstl.cpp"], defs=["-DC16_E1"]),
@@ -107,6 +108,27 @@ PROPS = {
         level_note="trusted: gsched runtime and HB rules, TSan instrumentation, hooks; READ/WRITE both lock in this runtime, UNPROTECTED paths are not generated",
         assumptions=["same operator preconditions as C01", "payload cells live in the HB-checked arena; harness bookkeeping is invisible to scheduler and tracker"],
     ),
+    "C06": dict(
+        variants={"sched": ["galois_shmem"], "schedn": ["galois_shmem"]},
+        units=[dict(type="rc", harness="c06", quick=24000, thorough=400000),
+               dict(type="rc", harness="foreach", quick=10000, thorough=150000, exclude=["C01/BulkSynchronous+conflicts/lost-item"]),
+               dict(type="rc", harness="c05", quick=10000, thorough=150000),
+               dict(type="rc", harness="c03", quick=10000, thorough=150000, exclude=["C03/do_all-InsertBag/fewer-active-threads"])],
+        engine="gsched+rapidcheck",
+        technique="property-based testing: generated lock scripts (SimpleLock, PtrLock incl. unlock_and_set/clear/setValue/CAS, PaddedLock, ThreadRWlock, lock_guard) and generated programs around every promised edge under controlled schedules; mutual-exclusion counter oracle + vector-clock happens-before tracker that honours each operation's declared memory_order, applied to harness payload cells",
+        rule=("unit c06: (lock kind, 2..6 threads, 1..12 operations per thread, critical-section delays, schedule); non-trivial = lock handed "
+              "between different threads AND a preemption inside a critical section. Units foreach/c05/c03 re-run the C01/C05/C03 "
+              "generators for their payload checks: worklist push->pop cells, lockable hand-over (stamp/value cells), barrier stamps, "
+              "loop entry/return cells; their non-triviality rules are those of C01/C05/C03. distinct = hash of the case per unit"),
+        level_text=("Mutual exclusion by in-section counters (readers/writer rules for the RW lock), lost-update check on a plain counter, "
+                    "eventual admission by deadlock/spin-deadlock detection and the bounded fair tail; every promised edge (lock "
+                    "release->acquire, lockable hand-over, barrier arrival->departure, loop entry/return in sleep and busy-wait mode, "
+                    "worklist push->pop on 34 worklists) judged by vector clocks over the memory orders the code requests. SC "
+                    "interleavings only; non-SC outcomes are represented through the HB judgement, not executed."),
+        level_note="trusted: the HB rules of DESIGN 3.1.3 (C++20 release sequences, fences), gsched, TSan instrumentation (every atomic arrives with its declared order)",
+        assumptions=["only harness-declared payload is race-checked; intentional benign races inside the runtime are not reported",
+                     "out-of-scope configurations of the reused generators (C01/C03 known findings) are excluded by construction"],
+    ),
     "C08": dict(
         variants={"sched": ["galois_shmem"]},
         units=[dict(type="rc", harness="foreach", quick=14000, thorough=200000)],
@@ -176,9 +198,9 @@ PROPS = {
 }
 
 ENGINES = [
-    dict(name="gsched", path="engine/gsched", serves_properties=["C01", "C02", "C03", "C04", "C05", "C08", "C16"],
+    dict(name="gsched", path="engine/gsched", serves_properties=["C01", "C02", "C03", "C04", "C05", "C06", "C08", "C16"],
          kind_free_text="schedule-owning runtime behind clang's TSan instrumentation ABI + pthread interposition; vector-clock HB tracker"),
-    dict(name="rapidcheck fork driver", path="harness/common/verif_e1.h", serves_properties=["C01", "C02", "C03", "C04", "C05", "C08", "C16"],
+    dict(name="rapidcheck fork driver", path="harness/common/verif_e1.h", serves_properties=["C01", "C02", "C03", "C04", "C05", "C06", "C08", "C16"],
          kind_free_text="rapidcheck generation/shrinking in a parent process, one forked child per case, replay files"),
 ]
 
